@@ -213,8 +213,20 @@ func (node *harness) NextAction(ctx context.Context, flow Flow) chan IAction {
 	})
 
 	response := make(chan chan IAction, 1)
-	node.mch <- nextHarnessActionMessage{flow: flow, response: response}
-	return <-response
+	// Once the context is done the harness' run loop may be gone: hand the
+	// flow a nil channel (it never delivers, so the flow takes its own
+	// ctx.Done arm) instead of blocking it forever.
+	select {
+	case node.mch <- nextHarnessActionMessage{flow: flow, response: response}:
+	case <-ctx.Done():
+		return nil
+	}
+	select {
+	case out := <-response:
+		return out
+	case <-ctx.Done():
+		return nil
+	}
 }
 
 func (node *harness) Element() schema.FlowNodeInterface { return node.activity.Element() }
